@@ -230,8 +230,47 @@ def mask_password_shape():
     return default_secret, steps
 
 
+def compile_loop_shape():
+    """the module-level loop must compile every pattern as  re.compile(pattern % {'key': key}, re.DOTALL | re.IGNORECASE)
+    (exactly two positional arguments, no keywords) and append it to the list of its own kind"""
+    tree = repo_ast('oslo_utils/strutils.py')
+    loops = [n for n in tree.body if isinstance(n, ast.For) and isinstance(n.iter, ast.Name) and n.iter.id == '_SANITIZE_KEYS']
+    if len(loops) != 1: raise GenError('compile loop over _SANITIZE_KEYS not found (or not unique)')
+    loop = loops[0]
+    if not isinstance(loop.target, ast.Name): raise GenError('compile loop target')
+    kv = loop.target.id
+    want_call = ast.dump(ast.parse("re.compile(pattern % {'key': KEYVAR}, re.DOTALL | re.IGNORECASE)".replace('KEYVAR', kv), mode='eval').body)
+    want_call2 = ast.dump(ast.parse("re.compile(pattern % {'key': KEYVAR}, re.IGNORECASE | re.DOTALL)".replace('KEYVAR', kv), mode='eval').body)
+    PAIR = {'_FORMAT_PATTERNS_2': '_SANITIZE_PATTERNS_2', '_FORMAT_PATTERNS_1': '_SANITIZE_PATTERNS_1', '_FORMAT_PATTERNS_WILDCARD': '_SANITIZE_PATTERNS_WILDCARD'}
+    seen = set()
+    for st in loop.body:
+        if isinstance(st, ast.Assign):      # _SANITIZE_PATTERNS_x[key] = []
+            t = st.targets[0] if len(st.targets) == 1 else None
+            if not (isinstance(t, ast.Subscript) and isinstance(t.value, ast.Name) and t.value.id in PAIR.values()
+                    and isinstance(st.value, ast.List) and not st.value.elts):
+                raise GenError('unexpected assignment in the compile loop')
+            continue
+        if not (isinstance(st, ast.For) and isinstance(st.iter, ast.Name) and st.iter.id in PAIR and isinstance(st.target, ast.Name)):
+            raise GenError('unexpected statement in the compile loop')
+        pv = st.target.id
+        if len(st.body) != 2: raise GenError('inner compile loop body')
+        a, b = st.body
+        if not (isinstance(a, ast.Assign) and len(a.targets) == 1 and isinstance(a.targets[0], ast.Name)
+                and ast.dump(a.value).replace("id='%s'" % pv, "id='pattern'") in (want_call, want_call2)):
+            raise GenError('patterns are not compiled as re.compile(pattern % {key}, re.DOTALL | re.IGNORECASE)')
+        rx = a.targets[0].id
+        want_app = ast.dump(ast.parse('%s[%s].append(%s)' % (PAIR[st.iter.id], kv, rx), mode='exec').body[0])
+        if ast.dump(b) != want_app: raise GenError('compiled pattern is not appended to %s[key]' % PAIR[st.iter.id])
+        seen.add(st.iter.id)
+    if seen != set(PAIR): raise GenError('compile loop does not cover the three pattern lists')
+
+
 def generate():
+<<<<<<< HEAD
     failclosed.check_all(FAILCLOSED['generate'])
+=======
+    compile_loop_shape()
+>>>>>>> w/C04
     m = _strutils()
     keys = list(m._SANITIZE_KEYS)
     flags = _flags_of(m)
